@@ -112,3 +112,9 @@ except ImportError:
 # would add is stated as outside the claim: tree builder step at 31 / 63 symbolic code lengths, fully symbolic lh_new read at HISTORY_BITS 9 / 10
 _DROP = {"tree.add.lhtemp", "tree.add.pm2code", "tree.add.lhoff6", "lhnew.read.hb9", "lhnew.read.lk.hb10"}
 HARNESSES = [h for h in HARNESSES if h["name"] not in _DROP]
+
+# CBMC 6.11 checks an access p->member[i] only against the size of the whole object (no lower bound, no per-member bound):
+# the driver wraps every member-array index of the decoder sources in an explicit guard (harness/common/verif_idx.h)
+for _h in HARNESSES:
+    if _h.get("mode") == "safety":
+        _h["member_bounds"] = True
